@@ -531,8 +531,10 @@ class ITerm2Image(GraphicsImage, metaclass=ITerm2ImageMeta):
             lines = max(fmt[-1], self.rendered_height)
             r_width = self.rendered_width
             erase_and_move_cursor = ERASE_CHARS % r_width + CURSOR_FORWARD % r_width
+            # `_format_render()` adds the padding lines itself
             first_frame = self._format_render(
-                f"{erase_and_move_cursor}\n" * (lines - 1) + erase_and_move_cursor,
+                f"{erase_and_move_cursor}\n" * (self.rendered_height - 1)
+                + erase_and_move_cursor,
                 *fmt,
             )
             print(
